@@ -43,6 +43,11 @@ def hostile(rnd, magic_bytes, hdr):
     yield "list-negstr", hdr + b"[" + big + b"s" + neg
     yield "tuple-neg-unicode", hdr + b"(" + big + b"u" + neg
     yield "dict-neg-float", hdr + b"{f\xfbN0"
+    # a 3.11+ code object with 200000 local-variable slots (honest counts, ends before its file name): splitting localsplusnames into the
+    # three name tuples has to be linear
+    n = 200000
+    yield "localsplus-200k", (hdr + b"c" + struct.pack("<iiiii", 0, 0, 0, 1, 0) + b"s\x02\x00\x00\x00S\x00" + b"(\x00\x00\x00\x00" + b"(\x00\x00\x00\x00"
+                              + b"(" + struct.pack("<i", n) + b"N" * n + b"s" + struct.pack("<i", n) + b"\x20" * n)
 
 
 def run(r):
@@ -81,7 +86,7 @@ def run(r):
         cases.append({"bytes": list(data[:p] + data[p + 1:]), "kind": "deletion", "src": tag})
         cases.append({"bytes": list(data[:p] + bytes([rnd.randrange(256)]) + data[p:]), "kind": "insertion", "src": tag})
     headers = {"2.7": b"\x03\xf3\r\n\0\0\0\0", "3.3": struct.pack("<H", 3230) + b"\r\n" + b"\0" * 8, "3.8": struct.pack("<H", 3413) + b"\r\n" + b"\0" * 12,
-               "3.12": struct.pack("<H", 3531) + b"\r\n" + b"\0" * 12, "1.5": struct.pack("<H", 20121) + b"\r\n\0\0\0\0", "interim": struct.pack("<H", 3010) + b"\x01\x02" + b"\0" * 8,
+               "3.12": struct.pack("<H", 3531) + b"\r\n" + b"\0" * 12, "3.11": struct.pack("<H", 3495) + b"\r\n" + b"\0" * 12, "3.13": struct.pack("<H", 3571) + b"\r\n" + b"\0" * 12, "1.5": struct.pack("<H", 20121) + b"\r\n\0\0\0\0", "interim": struct.pack("<H", 3010) + b"\x01\x02" + b"\0" * 8,
                "dropbox": struct.pack("<H", 62135) + b"\r\n" + b"\0" * 4, "dropbox-hacked": struct.pack("<H", 62215) + b"zz" + b"\0" * 4}
     for hn, hdr in headers.items():
         for kind, body in hostile(rnd, hdr[:4], hdr):
